@@ -321,3 +321,6 @@ def run(P, R, tier):
     flds = fields.init_fields_of(P, "GMMStats", ("n_gaussians", "n_features"))
     fields.check_init_fields(P, R, "GMMStats", "init_fields", flds)
     fields.check_compare(P, R, "GMMStats", "__eq__", flds, rule="FIELDS.eq")
+
+
+EXPLANATION += ' Also: (SCHEMA.S9) the per-component groups of the legacy format are addressed by index (the weights are index-ordered), never visited in name order.'
